@@ -432,33 +432,7 @@ func runBatch(b batch, bi int) {
 			judge(lastRes, w)
 			cur = lastRes.Idx + 1
 		case res.ExitCode == exitHang && lastRes != nil:
-			// a hang is a violation only when it reproduces 3/3 alone with the same handler on the stack
-			site := hangSite(lastRes.HangStack)
-			if hangConfirmed("hang/" + site) {
-				run.Count("net.hang_suspects_at_a_site_already_confirmed_in_this_run", 1)
-				cur = lastRes.Idx + 1
-				continue
-			}
-			var sameN atomic.Int32
-			vlib.Parallel(3, 3, func(k int) {
-				// the confirmation runs get twice the time: a loop bounded by a 32-bit count ends, an unbounded one does not
-				st, rr, _ := runOneW(seed, lastRes.Idx, b.synced, fmt.Sprintf("hang%d", k), fmt.Sprint(2*int(scriptWdog/time.Second)))
-				if st == "hang" && rr != nil && hangSite(rr.HangStack) == site {
-					sameN.Add(1)
-				}
-			})
-			same := int(sameN.Load())
-			w := mkW(lastRes.Idx)
-			w.LogTail = tail(lastRes.HangStack, 6000)
-			lastRes.HangStack = ""
-			rb, _ := json.Marshal(lastRes)
-			w.Result = rb
-			if same == 3 {
-				markHangConfirmed("hang/" + site)
-				run.Violation("hang/"+site, fmt.Sprintf("script does not finish within %v (and within %v in 3/3 runs alone), Run is inside %s", scriptWdog, 2*scriptWdog, site), w)
-			} else {
-				run.Inconclusive("script %d exceeded the watchdog once (inside %s) but reproduced only %d/3 times", lastRes.Idx, site, same)
-			}
+			judgeHang(lastRes, mkW(lastRes.Idx), b.synced)
 			cur = lastRes.Idx + 1
 		default:
 			// the child died: the last journaled script without a result is the witness
@@ -469,28 +443,104 @@ func runBatch(b batch, bi int) {
 				run.Count("net.batches_inconclusive", 1)
 				return
 			}
-			kind, msg, frames := crashInfo(logs)
-			w := mkW(dead)
-			w.LogTail = tail(crashExcerpt(logs), 5000)
-			if ex := crashExcerpt(logs); !strings.Contains(ex, "(*OneConnection).Run(") && !strings.Contains(ex, "created by github.com/piotrnar/gocoin") &&
-				!strings.Contains(ex, "txpool.HandleNetTx") {
-				// the dying goroutine was not executing the node's connection code: harness context
-				run.Inconclusive("batch %d: child died outside the node's connection code at script %d (%s: %s; %s)", bi, dead, kind, msg, strings.Join(frames, " <- "))
-				run.Count("net.harness_suspect", 1)
-				cur = dead + 1
-				continue
-			}
-			st, _, _ := runOne(seed, dead, b.synced, "dead")
-			w.Alone = st
-			var je journalEntry
-			json.Unmarshal(jl, &je)
 			run.Count("net.scripts", 1)
-			run.Count("net.child_deaths", 1)
-			run.Violation(kind+"/"+where(frames),
-				fmt.Sprintf("node process died (exit %d %s) while script %d was being processed: %s; stack: %s; messages: %v", res.ExitCode, res.Signal, dead, msg, strings.Join(frames, " <- "), je.Cmds), w)
+			judgeDead(logs, mkW(dead), jl, b.synced, fmt.Sprintf("exit %d %s", res.ExitCode, res.Signal), true)
 			cur = dead + 1
 		}
 	}
+}
+
+// judgeHang: a hang is a violation only when it reproduces 3/3 alone (with twice the time) with the
+// same handler on the stack; otherwise it is inconclusive.
+func judgeHang(r *scriptResult, w *witness, synced bool) {
+	site := hangSite(r.HangStack)
+	if hangConfirmed("hang/" + site) {
+		run.Count("net.hang_suspects_at_a_site_already_confirmed_in_this_run", 1)
+		return
+	}
+	var sameN atomic.Int32
+	vlib.Parallel(3, 3, func(k int) {
+		// a loop bounded by a 32-bit count ends within the doubled time, an unbounded one does not
+		st, rr, _ := runOneW(w.Seed, r.Idx, synced, fmt.Sprintf("hang%d", k), fmt.Sprint(2*int(scriptWdog/time.Second)))
+		if st == "hang" && rr != nil && hangSite(rr.HangStack) == site {
+			sameN.Add(1)
+		}
+	})
+	same := int(sameN.Load())
+	w.LogTail = tail(runGoroutines(r.HangStack), 6000)
+	r.HangStack = ""
+	rb, _ := json.Marshal(r)
+	w.Result = rb
+	if same == 3 {
+		markHangConfirmed("hang/" + site)
+		run.Violation("hang/"+site, fmt.Sprintf("script does not finish within %v (and not within %v in 3/3 runs alone), Run is inside %s; last message delivered: %q [%s]", scriptWdog, 2*scriptWdog, site, lastOf(r)), w)
+	} else {
+		run.Inconclusive("script %d exceeded the watchdog once (inside %s) but reproduced only %d/3 times", r.Idx, site, same)
+	}
+}
+
+func lastOf(r *scriptResult) string {
+	if len(r.Cmds) > 0 {
+		return r.Cmds[len(r.Cmds)-1]
+	}
+	return ""
+}
+
+// judgeDead classifies the death of a child during a script.
+func judgeDead(logs string, w *witness, jl json.RawMessage, synced bool, how string, replayAlone bool) {
+	kind, msg, frames := crashInfo(logs)
+	w.LogTail = tail(crashExcerpt(logs), 5000)
+	if ex := crashExcerpt(logs); !strings.Contains(ex, "(*OneConnection).Run(") && !strings.Contains(ex, "created by github.com/piotrnar/gocoin") &&
+		!strings.Contains(ex, "txpool.HandleNetTx") {
+		// the dying goroutine was not executing the node's connection code: harness context
+		run.Inconclusive("child died outside the node's connection code at script %d (%s: %s; %s)", w.Script, kind, msg, strings.Join(frames, " <- "))
+		run.Count("net.harness_suspect", 1)
+		return
+	}
+	if replayAlone {
+		st, _, _ := runOne(w.Seed, w.Script, synced, "dead")
+		w.Alone = st
+	}
+	var je journalEntry
+	json.Unmarshal(jl, &je)
+	run.Count("net.child_deaths", 1)
+	run.Violation(kind+"/"+where(frames),
+		fmt.Sprintf("node process died (%s) while script %d was being processed: %s; stack: %s; messages: %v", how, w.Script, msg, strings.Join(frames, " <- "), je.Cmds), w)
+}
+
+// runProbes replays the fixed minimal witnesses of the recorded findings (see FINDINGS.md), each in a
+// child of its own. They go through the same judgement as generated scripts; one that no longer
+// reproduces is reported as a note.
+func runProbes() {
+	vlib.Parallel(len(probeNames), 5, func(k int) {
+		idx := probeBase - k
+		j := filepath.Join(tmp, fmt.Sprintf("one-probe-%d.j", idx))
+		st, r, logs := runOne(run.Seed, idx, true, "probe")
+		w := &witness{Seed: run.Seed, Script: idx, Synced: true, Journal: journalFor(j, idx), Position: "fixed witness " + probeNames[k],
+			HowTo: fmt.Sprintf("./check C18 --script %d", idx)}
+		run.Count("probe.runs", 1)
+		switch st {
+		case "anomaly":
+			if r != nil {
+				account(r)
+				judge(r, w)
+			}
+		case "hang":
+			if r != nil {
+				judgeHang(r, w, true)
+			}
+		case "dead":
+			judgeDead(logs, w, w.Journal, true, "fatal", false)
+		case "ok":
+			fmt.Printf("NOTE: fixed witness %q did not trigger anything in this run\n", probeNames[k])
+			run.Count("probe.not_reproduced", 1)
+			if r != nil {
+				account(r)
+			}
+		default:
+			run.Inconclusive("fixed witness %q: %s", probeNames[k], st)
+		}
+	})
 }
 
 // crashExcerpt cuts the part of the log from the fatal message to the end of the first goroutine.
@@ -636,7 +686,11 @@ func main() {
 	go func() {
 		defer wg.Done()
 		if only != "lib" {
+			var pw sync.WaitGroup
+			pw.Add(1)
+			go func() { defer pw.Done(); runProbes() }()
 			runNetwork(nScripts, 0)
+			pw.Wait()
 		}
 	}()
 	go func() {
